@@ -157,10 +157,16 @@ def run_random(rep, prop, tier, seed, layouts, count=None, gen_args=None, tag=No
             nontrivial += 1
         for x in r["results"][1:]:
             if x.get("stdout") != base["stdout"] or x.get("exit") != base.get("exit"):
-                rep.violation("random-layout", "program seed=%d index=%d :: layout" % (seed, i),
+                sig = ""
+                if x.get("rejected"):
+                    codes = ",".join(sorted(set("E%d" % d[0] for d in x.get("diags", []) or [])))
+                    sig = " rejected" + (" " + codes if codes else "") + (" panic=" + "-".join(str(x["panic"]).split()[:4]) if x.get("panic") else "")
+                elif "stdout" not in x:
+                    sig = " crash"
+                rep.violation("random-layout", "program seed=%d index=%d :: layout%s" % (seed, i, sig),
                               {"problem": "formatting / comments / parentheses changed the result",
                                "canonical": {"stdout": base["stdout"], "exit": base.get("exit")},
-                               "variant": {k: x.get(k) for k in ("stdout", "exit", "rejected", "diags", "crash")},
+                               "variant": {k: x.get(k) for k in ("stdout", "exit", "rejected", "diags", "crash", "panic")},
                                "source": r["source"], "variant_source": x.get("source")})
     log("[trace] %d random programs: %d traced, %d accepted by Trace_Machine, %d trivial (ub/fuel), %d rejected traces, %d not executable" %
         (len(programs), len(where), accepted, len(trivial), len(rejections), len(direct)))
